@@ -622,9 +622,10 @@ def r8_handler_arithmetic(ctx, F):
                     n_checks += 1
                     ok = None
                     if isinstance(cond, Term) and cond.op == "overflow":
-                        op, a, b = cond.args
+                        op, a, b = cond.args[:3]
+                        width = cond.args[3] if len(cond.args) > 3 and cond.args[3] else 64
                         lo, hi = term_range(Term(op, a, b), bounds)
-                        ok = lo >= 0 and hi < 2 ** 64 if "as_u32" not in repr(a) else (lo >= 0 and hi < 2 ** 32)
+                        ok = lo >= 0 and hi < 2 ** width
                         why = "%s %s %s ranges over [%d, %d]" % (a, op, b, lo, hi)
                     elif kind == "div0" and isinstance(cond, Term) and cond.op == "==":
                         lo, hi = term_range(cond.args[0], bounds)
